@@ -45,6 +45,8 @@ def cases(tier, seed):
     for s in SHAPES:
         out.append(f"{s}/single")
         out.append(f"{s}/pair")
+    # documents listing the balance points in reversed order (the kernel/fix_full_model_x reorder them)
+    out += ["hdd_tidd_cdd/singlerev", "hdd_tidd_cdd_smooth/singlerev"]
     if tier == "thorough":
         out.append("hdd_tidd_cdd_smooth/pairexact")  # the real get_smooth_coeffs inside the pair run (no contract)
     return out
@@ -131,7 +133,7 @@ def replay_submodel(inp):
     nT = 1 if mode == "single" else 2
     vals = {k: float(v) for k, v in inp["vals"].items()}
     Ts = [vals[f"T{i}"] for i in range(nT)]
-    out = R.real_predict_submodel(shape, vals, Ts)
+    out = R.real_predict_submodel(shape, R.swapped(vals) if inp.get("reverse") else vals, Ts)
     V = R.input_vars(shape, nT)
     O = _out_vars(nT)
     env = dict(vals)
@@ -254,6 +256,9 @@ def run_case(case: Case, name: str):
     exact = mode == "pairexact"
     if exact:
         mode = "pair"
+    reverse = mode == "singlerev"
+    if reverse:
+        mode = "single"
     nT = 1 if mode == "single" else 2
     V = R.input_vars(shape, nT)
     case.inputs = list(V.values())
@@ -266,7 +271,7 @@ def run_case(case: Case, name: str):
         case.note("get_smooth_coeffs replaced by its contract (assume-guarantee; contract proved in hdd_tidd_cdd_smooth/lemma)")
 
     def run():
-        return R.sym_predict_submodel(shape, nT)
+        return R.sym_predict_submodel(shape, nT, assume=([V["hdd_bp"] < V["cdd_bp"]] if reverse else ()), reverse=reverse)
 
     with R.symbolic_daily(contract=contract):
         paths = case.explore(run)
@@ -274,7 +279,7 @@ def run_case(case: Case, name: str):
     def builder(label):
         def b(model):
             env = model_env(model, case.inputs)
-            return dict(shape=shape, mode=mode, label=label, vals=env)
+            return dict(shape=shape, mode=mode, label=label, vals=env, reverse=reverse)
         return b
 
     Ts = [V[f"T{i}"] for i in range(nT)]
@@ -309,7 +314,7 @@ def run_case(case: Case, name: str):
         # trace validation against the jitted implementation
         if not contract:
             case.validate(p, p.value, lambda mdl: model_env(mdl, case.inputs),
-                          lambda inp: R.real_predict_submodel(shape, inp, [inp[f"T{i}"] for i in range(nT)]))
+                          lambda inp: R.real_predict_submodel(shape, R.swapped(inp) if reverse else inp, [inp[f"T{i}"] for i in range(nT)]))
         if m is not None and len(case.rep["samples"]) < 2:
             case.sample(dict(path_decisions=p.decisions, witness=model_env(m, case.inputs)))
 
